@@ -49,6 +49,7 @@ package gated
 //@ func (*Filter).Close(ctx) (err)
 //@   requires w != nil && held(w.l) == 0 && gateOK(w)
 //@   requires C12/callback-free: cbfree()
+//@   ensures C17/a-failing-flush-fails-close: err == nil ==> failedCalls("(*Filter).FlushAll") == 0
 //@   ensures C17/nothing-remains-gated: err == nil ==> (w.gated == nil || (forall id string :: !(id in w.gated)))
 //@   ensures unlocked: held(w.l) == 0
 
@@ -56,12 +57,14 @@ package gated
 //@   requires w != nil && held(w.l) == 0 && gateOK(w)
 //@   requires C12/callback-free: cbfree()
 //@   assigns Filter.gated, Filter.orderedGated, map:map[string]*gatedEvent, list, listel, list.Element.Value, ev, ctxdone, held, lockacq
+//@   ensures C11+C17/a-group-that-cannot-be-emitted-fails-the-flush: err == nil ==> failedCalls("(*Filter).openGate") == 0
 //@   ensures C17/nothing-remains-gated: err == nil ==> (w.gated == nil || (forall id string :: !(id in w.gated)))
 //@   ensures C11+C17/every-group-composed-once-oldest-first: err == nil && old(w.Broker) != nil && old(w.gated) != nil && old(w.orderedGated) != nil && old(w.composeFrom) != nil ==> calls("fn:Filter.composeFrom") == old(calls("fn:Filter.composeFrom")) + old(listLen(w.orderedGated))
 //@   ensures C11/no-broker-drops-without-composing: old(w.Broker) == nil ==> calls("fn:Filter.composeFrom") == old(calls("fn:Filter.composeFrom")) && calls("Sender.Send") == old(calls("Sender.Send"))
 //@   ensures gate-stays-consistent: gateOK(w)
 //@   ensures unlocked: held(w.l) == 0 && (forall x ref :: x != ref(w.l) ==> heldAt(x) == old(heldAt(x)))
 //@   ensures C11+C17+C19/single-critical-section: acquisitions(w.l) == old(acquisitions(w.l)) + 1
+//@   loop 1 invariant failedCalls("(*Filter).openGate") == 0
 //@   loop 1 invariant held(w.l) == 2 && acquisitions(w.l) == old(acquisitions(w.l)) + 1 && w.gated != nil && w.orderedGated != nil && w.composeFrom != nil && w.Broker != nil && gateOK(w) && (forall x ref :: x != ref(w.l) ==> heldAt(x) == old(heldAt(x)))
 //@   loop 1 invariant C17/cursor-is-the-oldest-remaining-group: (listLen(w.orderedGated) > 0 ==> e == listAt(w.orderedGated, 0)) && (listLen(w.orderedGated) == 0 ==> e == nil)
 //@   loop 1 invariant calls("fn:Filter.composeFrom") + listLen(w.orderedGated) == old(calls("fn:Filter.composeFrom")) + old(listLen(w.orderedGated))
@@ -79,12 +82,14 @@ package gated
 //@   requires w != nil && held(w.l) == 0 && gateOK(w)
 //@   requires C12/callback-free: cbfree()
 //@   assigns Filter.Expiration, Filter.checkedAt, map:map[string]*gatedEvent, list, listel, list.Element.Value, ev, ctxdone, held, lockacq
+//@   ensures C11+C17/an-expired-group-that-cannot-be-emitted-fails-the-sweep: err == nil ==> failedCalls("(*Filter).openGate") == 0
 //@   ensures C17/no-examined-group-was-expired: err == nil && w.gated != nil && w.orderedGated != nil && old(len(w.gated)) > 0 ==> (forall i int :: 0 <= i && i < listLen(w.orderedGated) ==> !ufbool("time.After", w.checkedAt[listAt(w.orderedGated, i)], groupOf(listAt(w.orderedGated, i)).exp))
 //@   ensures C11/only-expired-groups-are-emitted: calls("Sender.Send") <= calls("fn:Filter.composeFrom") - old(calls("fn:Filter.composeFrom")) + old(calls("Sender.Send"))
 //@   ensures gate-stays-consistent: gateOK(w) && w.gated == old(w.gated) && w.orderedGated == old(w.orderedGated) && w.composeFrom == old(w.composeFrom)
 //@   ensures C11/surviving-groups-keep-their-events: forall id string :: w.gated != nil && (id in w.gated) ==> old(id in w.gated) && w.gated[id] == old(w.gated[id])
 //@   ensures unlocked: held(w.l) == 0 && (forall x ref :: x != ref(w.l) ==> heldAt(x) == old(heldAt(x))) && acquisitions(w.l) == old(acquisitions(w.l)) + 1
 //@   ghost at loop 1 backedge havoc Filter.checkedAt: (forall x *list.Element :: x != ge.element ==> w.checkedAt[x] == old(w.checkedAt[x])) && (elemList(ge.element) != nil ==> !ufbool("time.After", w.checkedAt[ge.element], ge.exp))
+//@   loop 1 invariant failedCalls("(*Filter).openGate") == 0
 //@   loop 1 invariant held(w.l) == 2 && w.gated != nil && w.orderedGated != nil && w.composeFrom != nil && gateOK(w) && w.gated == old(w.gated) && w.orderedGated == old(w.orderedGated) && w.composeFrom == old(w.composeFrom) && (forall x ref :: x != ref(w.l) ==> heldAt(x) == old(heldAt(x))) && acquisitions(w.l) == old(acquisitions(w.l)) + 1
 //@   loop 1 invariant C17/cursor-walks-the-list-in-order: (e != nil ==> inGate(w, e)) && (forall i int :: 0 <= i && i < ((e != nil) ? elemIdx(e) : listLen(w.orderedGated)) ==> !ufbool("time.After", w.checkedAt[listAt(w.orderedGated, i)], groupOf(listAt(w.orderedGated, i)).exp))
 //@   loop 1 invariant calls("Sender.Send") <= calls("fn:Filter.composeFrom") - old(calls("fn:Filter.composeFrom")) + old(calls("Sender.Send"))
@@ -97,6 +102,7 @@ package gated
 //@ func (*Filter).Process(ctx, e) (out, err)
 //@   requires w != nil && held(w.l) == 0 && gateOK(w)
 //@   requires C12/callback-free: cbfree()
+//@   ensures C11+C17/a-failing-expiry-sweep-fails-the-event: err == nil ==> failedCalls("(*Filter).processExpiredEvents") == 0
 //@   ensures C11/missing-event-rejected: e == nil ==> err != nil && out == nil && ev_n == old(ev_n)
 //@   ensures C11/non-gateable-events-pass-through-unchanged: e != nil && !gateable(e) ==> out == e && err == nil && ev_n == old(ev_n) && unchanged("map:map[string]*gatedEvent") && unchanged("list") && unchanged("listel") && w.gated == old(w.gated) && w.orderedGated == old(w.orderedGated)
 //@   ensures C11/events-without-an-id-are-rejected: e != nil && gateable(e) && idOf(e) == "" ==> err != nil && out == nil && ev_n == old(ev_n) && unchanged("map:map[string]*gatedEvent") && unchanged("list") && unchanged("listel")
